@@ -8,8 +8,8 @@ from harness import worldcorr as WC
 from props import _worldfam as F
 
 PID = 'C02'
-GENERATORS = ['consts']
-LEAN_TARGETS = ['EosProofs.Props.C02']
+GENERATORS = ['consts', 'affects_table']
+LEAN_TARGETS = ['EosProofs.Props.C02', 'EosProofs.Lemmas.AffectsTable']
 DRIVERS = ['drv_world']
 TRUSTED = F.WORLD_TRUSTED
 RULE = ('stream 1: random modification multisets (all 10 operators + unknown ones, aggregate min/max groups with ties, '
@@ -22,15 +22,25 @@ RULE = ('stream 1: random modification multisets (all 10 operators + unknown one
 ASSUMPTIONS = ['float summation/rounding noise not modelled (1e-9 relative tolerance; exact rounding ties accepted either way and counted as fragile)']
 CLAUSES = {
     'operator precedence, normalisation, penalty, aggregation, resist, cap, rounding': 'proved about Eos.Calc.calculate for all inputs (see theorem list); constants and normalisation lambdas regenerated from map.py and proved equal to the spec',
-    'which modifications are gathered (filters x domains, projected, fleet)': 'declarative spec Eos.World.gather/affects*; tied to the code by correspondence on from-scratch worlds (and by C01 on histories)',
+    'which modifications are gathered (filters x domains, projected, fleet)': (
+        'declarative spec Eos.World.gather/affects*; tied to the code by correspondence on from-scratch worlds (and by C01 '
+        'on histories); the selection functions (affectsLocal / affectsProjected / passesFilter / resolveDomain / others) are '
+        'additionally tied by the regenerated complete table EosGen.AffectsTable (real code run on designed worlds: affector '
+        'class x filter x domain x argument x affectee class x relation, and the projected twin), proved equal to the spec '
+        'case by case for every modifier the library\'s own validation (_valid, regenerated per row) accepts: '
+        'affects_table_matches_spec, affects_table_matches_spec_projected, affects_table_incremental_matches_spec (all rows), '
+        'affects_table_complete; rows with rejected modifiers are pinned by affects_table_invalid_rows_observed'),
     'an attribute without base and default value is absent': 'proved (absent_without_base) + correspondence',
 }
 LEVEL_TEXT = ('Lean theorems about the exact-rational calculation function (order independence, operator order, '
               'penalty, aggregation, cap, rounding) whose constants and normalisation formulas are regenerated from '
               'eos/calculator/map.py on every run; the function itself is tied to the code by a direct differential '
-              'stream into MutableAttrMap.__calculate and by from-scratch worlds.')
+              'stream into MutableAttrMap.__calculate and by from-scratch worlds; which items a modifier selects '
+              '(affectsLocal / affectsProjected) is tied by a complete decision table regenerated on every run by running '
+              'the real calculator on designed worlds (45 484 cases) and checked equal to the spec by kernel evaluation.')
 LEVEL_NOTE = 'Trusted: kernel + std axioms; AST translation of the 10 normalisation lambdas; float arithmetic not modelled.'
-TECHNIQUE = 'Lean 4 algebraic proofs over regenerated constants + differential correspondence of the calculation core'
+TECHNIQUE = ('Lean 4 algebraic proofs over regenerated constants + regenerated selection table (decide +kernel) + '
+             'differential correspondence of the calculation core')
 
 
 def _direct(ctx, rep, n):
@@ -124,6 +134,7 @@ def _ref_eval(case):
 
 def oracle(ctx):
     rep = ctx.report
+    _selection(ctx, rep)
     rnd = ctx.sub_rnd('oracle')
     vals = [0.5, 2, 3, -1, 10, 1.5, 50, 0.25, 4, 100]
     for _ in range(ctx.n(600, 10000)):
@@ -148,6 +159,50 @@ def oracle(ctx):
             rep.violate('value depends on the order of modifications: %r vs %r' % (a, b), {'a': case, 'b': c2})
 
 
+def _selection_check(kind, k, w, snap, aid, tid, m, valid, ids, inc):
+    """First item of one table row on which the real code left the Python re-statement of affectsLocal /
+    affectsProjected: (case, message) or None.  `ids`: modified in the world built from scratch; `inc`: modified after
+    every item was read and the effect was started / the target set afterwards; `valid`: the library's own verdict on
+    the modifier (`_valid`).  A domain_group modifier without group argument that the validation rejects is outside
+    the property's domain: judged on the incremental observation only."""
+    from gen import affects_table as AT
+    from harness import affects_ref as AR
+    outside = AR.group_none_row(m) and not valid
+    for x in snap[1]:
+        want = AR.expected(snap, aid, tid, m, x)
+        for how, got in (('built from scratch', x[0] in ids), ('effect started after all items were read', x[0] in inc)):
+            if how == 'built from scratch' and outside:
+                continue
+            if want != got:
+                case = {'affects_table': kind, 'class': k, 'world': w, 'modifier': list(m[:3]), 'modifier_valid': valid,
+                        'affector': aid, 'target': tid, 'item': list(x), 'observation': how, 'selected_by_code': got,
+                        'selected_by_spec': want, 'oracle': 'python re-statement of Eos.World.affects*'}
+                return case, ('designed world (%s table, class %s, world %d, %s): item %r (kind %s, type %d) is %s by '
+                              'modifier filter=%d domain=%d arg=%r of item %d, the specification says it is %s'
+                              % ('local' if kind == 'L' else 'projected', AT.KINDS[k], w, how, x[0], AT.KINDS[x[1]], x[2],
+                                 'modified' if got else 'NOT modified', m[0], m[1], m[2], aid,
+                                 'selected' if want else 'not selected'))
+    return None
+
+
+def _selection(ctx, rep):
+    """The regenerated selection table against the Python re-statement of affectsLocal / affectsProjected
+    (harness/affects_ref.py).  The proof obligation is the Lean theorem over the same table; this names the case."""
+    from gen import affects_table as AT
+    from harness import affects_ref as AR
+    for kind, table in zip('LP', AT.LAST or AT.tables()):
+        for (k, w, snap, aid, tid, rows) in table:
+            for m, valid, ids, inc in rows:
+                if AR.group_none_row(m) and not valid:
+                    rep.dist['selection_rows_invalid_group_filter_without_argument'] += 1
+                rep.dist['selection_rows_%s' % ('valid_modifier' if valid else 'modifier_rejected_by_validation')] += 1
+                rep.case(sig=('sel', kind, k, w, m[:3]), kind='selection-table-row')
+                rep.dist['selection_items_%s' % ('local' if kind == 'L' else 'projected')] += len(snap[1])
+                bad = _selection_check(kind, k, w, snap, aid, tid, m, valid, ids, inc)
+                if bad:
+                    rep.violate(bad[1], bad[0])
+
+
 def search(ctx, broken):
     ctx.tier = 'thorough'
     oracle(ctx)
@@ -155,4 +210,16 @@ def search(ctx, broken):
 
 
 def replay(path):
+    import json
+    p = C.VERIF / path if not str(path).startswith('/') else path
+    v = json.load(open(p)).get('violation') or {}
+    case = v.get('case') if isinstance(v, dict) else None
+    if isinstance(case, dict) and 'affects_table' in case:
+        from gen import affects_table as AT
+        print(json.dumps(v, indent=1)[:3000])
+        snap, aid, tid, m, valid, ids, inc = AT.observe(case['affects_table'], case['class'], case['world'],
+                                                        tuple(case['modifier']))
+        bad = _selection_check(case['affects_table'], case['class'], case['world'], snap, aid, tid, m, valid, ids, inc)
+        print('re-executed:', bad[1] if bad else 'the real code agrees with the specification on this world')
+        return 1 if bad else 0
     return F.generic_replay(PID, path)
